@@ -209,6 +209,18 @@ func checkC13Reconn(ix *index, add addFn) {
 				add("closes-silent", fmt.Sprintf("conn %d: a PINGREQ went unanswered but the client never closed the connection", k), nil)
 				continue
 			}
+			// closed by the keep-alive: the error reported with Closed is ErrPingTimeout
+			if ix.tr[c.endAt].Kind == "close" && ix.tr[c.endAt].V == 0 {
+				for i := range ix.tr {
+					if i >= ix.end() {
+						break
+					}
+					q := &ix.tr[i]
+					if q.Kind == "state" && q.Conn == k && q.S == "Closed" && !hasCls(q.Cls, "pingtimeout") && !otherEnding(ix, k) {
+						add("closes-silent", fmt.Sprintf("conn %d was closed for a silent peer but Closed carries %q, not ErrPingTimeout", k, q.Err), map[string]string{"kind": "error-identity"})
+					}
+				}
+			}
 			// a new dial must follow
 			redial := false
 			for k2, c2 := range conns {
@@ -235,4 +247,22 @@ func checkC13Reconn(ix *index, add addFn) {
 			}
 		}
 	}
+}
+
+// otherEnding: something besides the keep-alive can have ended connection k
+// (response timeout, application Close, Disconnect, write error).
+func otherEnding(ix *index, k int) bool {
+	if ix.sc.Cfg.ResponseTimeoutUs != 0 || ix.discAt >= 0 {
+		return true
+	}
+	for i := range ix.tr {
+		r := &ix.tr[i]
+		if r.Kind == "cause" && r.S == "localclose" {
+			return true
+		}
+		if r.Kind == "write" && r.Conn == k && r.Err != "" && r.Err != ErrSimClosed.Error() {
+			return true
+		}
+	}
+	return false
 }
